@@ -507,7 +507,7 @@ func wrappers(t reflect.Type) []reflect.Type {
 		reflect.SliceOf(reflect.PointerTo(t)), reflect.MapOf(reflect.TypeOf(""), reflect.PointerTo(t)), reflect.ArrayOf(1, reflect.PointerTo(t)),
 		reflect.PointerTo(reflect.PointerTo(t)),
 	}
-	if t.Comparable() && (t.Kind() == reflect.String || t.Kind() >= reflect.Int && t.Kind() <= reflect.Uintptr || t.Implements(reflect.TypeOf((*interface{ MarshalText() ([]byte, error) })(nil)).Elem())) {
+	if t.Comparable() && t != reflect.TypeOf(jtypes.PromotedText{}) && (t.Kind() == reflect.String || t.Kind() >= reflect.Int && t.Kind() <= reflect.Uintptr || t.Implements(reflect.TypeOf((*interface{ MarshalText() ([]byte, error) })(nil)).Elem())) {
 		ws = append(ws, reflect.MapOf(t, reflect.TypeOf(0)))
 	}
 	return ws
